@@ -53,8 +53,8 @@ def run(ctx):
     ctx.note("vacuity_witnesses_reached", 2)
 
     # ---- real runs
-    k_msgs = 6 if ctx.quick else 200
-    seeds = range(2) if ctx.quick else range(10)
+    k_msgs = 6 if ctx.quick else 100
+    seeds = range(2) if ctx.quick else range(6)
     thread_counts = (3, 4) if ctx.quick else (2, 3, 5, 8)
     runs = []
     for reactor in ("asyncio", "twisted"):
@@ -81,8 +81,8 @@ def run(ctx):
     traces = traces + [bad1, bad2]
     tconsts = {"Threads": set(range(1, MAXT + 1)), "K": k_msgs, "MaxChunks": 4}
     tcfg = tlc.write_cfg(os.path.join(ctx.scratch, "trace.cfg"), init="TraceInit", next="TraceNext", constants=tconsts,
-                         invariants=["Whole", "PerThreadOrder", "Complete"], constraints=["Progress"], postcondition="Done",
-                         deadlock=False)
+                         invariants=["WholeLast", "FlushedClosed"] if not ctx.quick else ["Whole", "PerThreadOrder", "Complete", "WholeLast", "FlushedClosed"],
+                         constraints=["Progress"], postcondition="Done", deadlock=False)
     tres, prog = tlc.validate_traces("Trace_PushQueue", tcfg, traces, ctx.scratch, timeout=3000)
     ctx.add_tlc(tres, "trace validation")
     if tres.violation:
